@@ -331,6 +331,28 @@ def install_repeat_pruning(ctx):
         loc = f.f_locals
         G = loc.get("G")
         if G is None or "convergence_count" not in loc:
+            # the local names this hook knows are gone (refactored rewire()): generic fallback - the state is every local that is a
+            # graph, a small scalar, a tuple of vertices or a sized iterable of tuples, at this source line.  Stale locals of the
+            # previous attempt make the first repeat look new, so one more level is explored than with the precise key.
+            st = [f.f_lineno]
+            for name, val in sorted(loc.items()):
+                if name == "self":
+                    continue
+                try:
+                    if isinstance(val, nx.Graph):
+                        st.append((name, repr(snapshot(val))))
+                    elif isinstance(val, (int, bool, str, float)) or val is None:
+                        st.append((name, repr(val)))
+                    elif isinstance(val, tuple):
+                        st.append((name, repr(tuple(int(x) for x in val))))
+                    elif hasattr(val, "__len__") and hasattr(val, "__iter__") and not isinstance(val, dict):
+                        st.append((name, repr(sorted(map(repr, val)))))
+                except Exception:  # noqa
+                    pass
+            key = (frames["n"], "generic", tuple(st))
+            if key in seen:
+                raise PathAbort("repeat-state")
+            seen.add(key)
             return
         line = linecache.getline(f.f_code.co_filename, f.f_lineno)
         site = "e1" if "e1" in line.split("=")[0] else "e0"
